@@ -29,6 +29,7 @@ type Step struct {
 	Arg   string   `json:"arg,omitempty"`
 	N     int      `json:"n,omitempty"`
 	Calls []string `json:"calls,omitempty"`
+	Drain bool     `json:"drain,omitempty"` // bclose: poll until the session is reported closed right away
 }
 
 type Case struct {
@@ -54,6 +55,8 @@ func genCase(t *rapid.T) Case {
 			st.Arg = rapid.SampledFrom([]string{"valid", "valid", "valid", "malformed", "wrong-type"}).Draw(t, "arg")
 		case "bsend":
 			st.N = rapid.IntRange(1, 25).Draw(t, "nsend")
+		case "bclose":
+			st.Drain = rapid.Bool().Draw(t, "drain")
 		case "group":
 			st.Calls = rapid.SampledFrom(groups).Draw(t, "calls")
 		}
@@ -68,6 +71,7 @@ type slot struct {
 	bc      *shimrig.BackendConn
 	pending int  // server messages sent by the backend and not yet delivered by a poll
 	gone    bool // after a backend close: a poll has already reported the session closed
+	sends   *sync.WaitGroup
 }
 
 var (
@@ -173,7 +177,7 @@ func runCase(c *Case) vh.Outcome {
 			if res.Status != 200 || bc == nil {
 				return fail(i, "open of a reachable backend answered %d %q", res.Status, res.Body)
 			}
-			*s = slot{state: "open", id: nid, bc: bc}
+			*s = slot{state: "open", id: nid, bc: bc, sends: &sync.WaitGroup{}}
 		case "data":
 			res := call("data", dataBody(id, st.Arg, st.N))
 			if err := answered(res); err != nil {
@@ -260,7 +264,12 @@ func runCase(c *Case) vh.Outcome {
 				continue
 			}
 			for k := 0; k < st.N; k++ {
-				go s.bc.Send(shimrig.WSMsg{Data: []byte(fmt.Sprintf("s%d", k))})
+				k, bc, wg := k, s.bc, s.sends
+				wg.Add(1)
+				go func() {
+					defer wg.Done()
+					bc.Send(shimrig.WSMsg{Data: []byte(fmt.Sprintf("s%d", k))})
+				}()
 			}
 			s.pending += st.N
 		case "bclose":
@@ -271,10 +280,14 @@ func runCase(c *Case) vh.Outcome {
 				o.NonTrivial = true
 				o.Classes = append(o.Classes, "backend-close-with-queued-messages")
 			}
-			// make sure the queued messages are on the wire before the close frame
-			time.Sleep(2 * time.Millisecond)
+			// the queued messages are on the wire before the close frame
+			s.sends.Wait()
 			s.bc.Close()
 			s.state = "bclosed"
+			if !st.Drain {
+				o.Classes = append(o.Classes, "backend-close-not-polled-yet")
+				continue
+			}
 			// drain as the property describes: queued messages, then "closed"
 			for tries := 0; ; tries++ {
 				res := call("poll", idBody(id, "valid"))
@@ -283,11 +296,9 @@ func runCase(c *Case) vh.Outcome {
 				}
 				if res.Status == 400 {
 					if s.pending > 0 {
-						// bsend writes are asynchronous: only messages that were written before the close count
-						o.Classes = append(o.Classes, "backend-close-overtook-sends")
+						return fail(i, "after the backend closed, a poll reported the session closed although %d messages the backend had sent before closing were never delivered", s.pending)
 					}
 					s.gone = true
-					s.pending = 0
 					break
 				}
 				if res.Status != 200 {
